@@ -184,4 +184,12 @@ META = {
           "(ii) every record ever received equals some value that very point held (no fabrication, no cross-wiring between points or types, no resurrection of a value the point never had), (iii) every event that update2 did not report as discarded by overflow was delivered to the handler as an event at least once."),
     note="Real-time executions are not replayable bit for bit; the replay file carries the scenario parameters and the observed history. Sanitizer builds of this workload are described in DESIGN.md section 6.",
  ),
+ "C20": dict(
+    engine="vh-ffi",
+    design_ref="5.20",
+    technique="exhaustive enumeration of conversion variants with a name/injectivity/round-trip oracle plus differential runtime monitoring of the binding's database entry points against the native API (harness compiled into dnp3-ffi by hook H4)",
+    text=("Fault enumeration over the binding crate's conversions: all variants of 40+ binding enumerations and all 256 octet values of the native command status, function code and control code types are pushed through the conversion impls and compared by normalised name, injectivity and (where both directions exist) identity of the round trip; struct conversions are probed with a distinct sentinel in every field. "
+          "Differential exploration: random operation sequences through database_add_* / remove / update_*_2 / update_flags / get_* (raw-pointer entry points) on one database and through Database::add / remove / update2 / update_flags / get on another must return the same results and leave databases with byte-identical wire images (all buffered events + class 0)."),
+    note="Conversions of error types with payloads (CommandError, TimeSyncError, FileError, ParamError sources), TLS / serial settings and attribute values are not enumerated; callbacks into foreign code are out of reach (no C is crossed).",
+ ),
 }
